@@ -290,7 +290,8 @@ func c11Interp(quote string, escapes bool) {
 	// hole values: a is a one-byte string, b a small int
 	a := verifString("a", 1)
 	bv := verifInt("b")
-	verifAssume(0 <= bv && bv < 100)
+	verifAssume(0 <= bv)
+	verifAssume(bv < 100)
 	var vals []any
 	for _, n := range args {
 		switch n {
